@@ -23,7 +23,7 @@ CHECK = dict(
                "request reaches the named registry only. Exploration, not proof.",
     level_note="Trusted: regmodel, rapid. Clauses 4/5 are evaluated on sequential operations only (ImageCopy's goroutines are not owned). All timing verdicts are one-sided bounds on the model's own timestamps, except "
                "'Retry-After host contacted first', which assumes the client orders its hosts within 750 ms of being called and is reported only when three executions agree. "
-               "Liveness is decided by counts (request cap 300 at L1, 3000 at L2); a wall-clock watchdog (90/120 s per case) is inconclusive.",
+               "Liveness is decided by counts (request cap 300 at L1, 3000 at L2); a wall-clock watchdog (240/300 s per case) is inconclusive.",
     assumptions=["'transient' = the classes the client documents as retryable: 429, 408, 500, 502, 504, transport error, body cut short where the endpoint supports Range (blobs) or nothing was read yet",
                  "absorption is stated for a fresh client, fewer delivered back-off events than the limit (natural 4xx/5xx answers count like faults), an attempt budget (limit+1 per logical request) that lacking "
                  "mirrors cannot exhaust ((f+1) x mirrors + f <= limit), and no fault on a probe the client deliberately does not retry (anonymous mount, tag DELETE)",
